@@ -865,7 +865,7 @@ theorem detachInputs_spec (idxs : List Nat) : ∀ (nd : NodeS),
         · subst hip
           by_cases hl : i < nd.inputs.length
           · simp [hp, hl]
-          · simp [hp, hl, Nat.not_lt.mp hl]
+          · simp [hp, hl]
         · have : ¬ (p ∈ i :: rest) := by
             simp only [List.mem_cons, not_or]
             exact ⟨fun x => hip x.symm, hp⟩
@@ -2399,5 +2399,48 @@ theorem serModelDev_eq {w : World} {m : MId} {protos : List (List PCfg)}
   have : ¬ (w.model m).irVersion < 11 := by omega
   simp only [this, if_false] at hb
   exact optAll_map (fun a _ b hb => serCfg_eq hb) hb
+
+theorem optAll_some {α : Type} : ∀ {l : List (Option α)}, (∀ o ∈ l, ∃ a, o = some a) → ∃ r, optAll l = some r := by
+  intro l
+  induction l with
+  | nil => intro _; exact ⟨[], rfl⟩
+  | cons x rest ih =>
+    intro h
+    obtain ⟨a, rfl⟩ := h x (by simp)
+    obtain ⟨r, hr⟩ := ih (fun o ho => h o (by simp [ho]))
+    exact ⟨a :: r, by simp [optAll, hr]⟩
+
+/-- with the invariant and named sharded values the device fields always serialize -/
+theorem serModelDev_some {w : World} (h : DevOK w) (hn : Named w) (m : MId) :
+    ∃ protos, serModelDev w m = some protos := by
+  unfold serModelDev
+  apply optAll_some
+  intro o ho
+  simp only [List.mem_map] at ho
+  obtain ⟨n, hnm, rfl⟩ := ho
+  unfold serNodeDev
+  split
+  · exact ⟨[], rfl⟩
+  · apply optAll_some
+    intro o ho
+    simp only [List.mem_map] at ho
+    obtain ⟨nc, hnc, rfl⟩ := ho
+    obtain ⟨a, b, _⟩ := h.model m
+    have hreg := (a n hnm).2 nc hnc
+    have hname := (b nc.cfg hreg).2
+    unfold serCfg
+    simp only [hname, if_false]
+    have : ∃ r, optAll (nc.specs.map (serSpec w)) = some r := by
+      apply optAll_some
+      intro o ho
+      simp only [List.mem_map] at ho
+      obtain ⟨s, hs, rfl⟩ := ho
+      have hnd : w.node n ∈ w.nodes := by
+        rw [mem_nodes_iff]; exact ⟨n, (a n hnm).1, rfl⟩
+      have := hn _ hnd nc hnc s hs
+      unfold serSpec
+      simp [this]
+    obtain ⟨r, hr⟩ := this
+    exact ⟨_, by rw [hr]; rfl⟩
 
 end IrVerif.Device
